@@ -201,6 +201,61 @@ theorem writerB_close_eq (fuel : Nat) (s : Writer.St) (hb : s.blocked = true) (h
   rw [hw]
   rfl
 
+/-- leaving the `with` block is `close()` (blocked writer) -/
+theorem writerB_exit_eq (fuel : Nat) (fin : Bool) (rem : Int) (d : Bytes) (pos : Int) :
+    Src.VbsWriterB_exit fuel fin rem d pos () () () = Src.VbsWriterB_close fuel fin rem d pos := by
+  unfold Src.VbsWriterB_exit
+  exact bind_ok_right _
+
+/-- a finalised blocked writer: `close()` does nothing at all -/
+theorem writerB_close_closed (fuel : Nat) (rem : Int) (d : Bytes) (pos : Int) :
+    Src.VbsWriterB_close fuel true rem d pos = .ok (true, (rem, (d, pos))) := by
+  rw [writerB_close_unfold]; rfl
+
+/-- `close()` or leaving the `with` block, with the translated blocked methods -/
+def srcFinB (fuel : Nat) (st : Bool × (Int × (Bytes × Int))) (f : Writer.Fin) : Outcome (Bool × (Int × (Bytes × Int))) :=
+  match f with
+  | .close => Src.VbsWriterB_close fuel st.1 st.2.1 st.2.2.1 st.2.2.2
+  | .exit => Src.VbsWriterB_exit fuel st.1 st.2.1 st.2.2.1 st.2.2.2 () () ()
+
+def srcFinsB (fuel : Nat) : Bool × (Int × (Bytes × Int)) → List Writer.Fin → Outcome (Bool × (Int × (Bytes × Int)))
+  | st, [] => .ok st
+  | st, f :: fs => (srcFinB fuel st f).bind (fun st' => srcFinsB fuel st' fs)
+
+theorem srcFinsB_closed (fuel : Nat) (fs : List Writer.Fin) (rem : Int) (d : Bytes) (pos : Int) :
+    srcFinsB fuel (true, (rem, (d, pos))) fs = .ok (true, (rem, (d, pos))) := by
+  induction fs with
+  | nil => rfl
+  | cons f fs ih =>
+    rw [srcFinsB]
+    have : srcFinB fuel (true, (rem, (d, pos))) f = .ok (true, (rem, (d, pos))) := by
+      cases f
+      · exact writerB_close_closed fuel rem d pos
+      · show Src.VbsWriterB_exit fuel true rem d pos () () () = _
+        rw [writerB_exit_eq]; exact writerB_close_closed fuel rem d pos
+    rw [this, bind_ok_eq]
+    exact ih
+
+/-- C11 for the code as translated (BLOCKED writer, not yet finalised, at the end of what it has written): ANY non-empty
+    history of translated `close()` / `__exit__` calls leaves exactly the state — file content, position, counters — a
+    single `close()` leaves: the model's closed file.  A second finalisation writes nothing. -/
+theorem C11_source_blocked (fuel : Nat) (hf4 : 4 < fuel) (s : Writer.St) (hb : s.blocked = true) (he : AtEnd s)
+    (hc : s.closed = false) (f : Writer.Fin) (fs : List Writer.Fin) :
+    srcFinsB fuel (wstateB s) (f :: fs) = .ok (wstateB (Writer.close 1012 s)) := by
+  have h1 : srcFinB fuel (wstateB s) f = .ok (wstateB (Writer.close 1012 s)) := by
+    cases f
+    · exact writerB_close_eq fuel s hb he hc hf4
+    · show Src.VbsWriterB_exit fuel s.closed (s.rem : Int) s.file.data (s.file.pos : Int) () () () = _
+      rw [writerB_exit_eq]; exact writerB_close_eq fuel s hb he hc hf4
+  rw [srcFinsB, h1, bind_ok_eq]
+  have hcl : (Writer.close 1012 s).closed = true := by
+    unfold Writer.close; rw [hc]; simp
+  have : wstateB (Writer.close 1012 s) =
+      (true, (((Writer.close 1012 s).rem : Int), ((Writer.close 1012 s).file.data, ((Writer.close 1012 s).file.pos : Int)))) := by
+    unfold wstateB; rw [hcl]
+  rw [this]
+  exact srcFinsB_closed fuel fs _ _ _
+
 /-! ### the blocked reader -/
 
 /-- the model's step over the unblocker, as the translated method would report it -/
